@@ -167,6 +167,42 @@ static void matrices(int n, int ndim, int maxlen, DTWSettings *st) {
     free(ptrs); free(lengths); free(matrix);
 }
 
+#ifdef VF_FUZZ
+// libFuzzer entry: the input bytes choose shape, every setting independently (not only the fixed option
+// bundles of the grid below) and the series values; coverage feedback steers towards unvisited kernel branches.
+static const unsigned char *fz; static size_t fzn, fzi;
+static unsigned fb(void) { return fzi < fzn ? fz[fzi++] : 0; }
+int LLVMFuzzerTestOneInput(const unsigned char *data, size_t size) {
+    if (size < 8) return 0;
+    fz = data; fzn = size; fzi = 0;
+    idx_t l1 = 1 + fb() % 14, l2 = 1 + fb() % 14;
+    int ndim = 1 + fb() % 3;
+    DTWSettings st = dtw_settings_default();
+    st.window = fb() % 17;
+    unsigned f = fb();
+    if (f & 1) { st.psi_1b = fb() % (l1 + 1); st.psi_1e = fb() % (l1 + 1); st.psi_2b = fb() % (l2 + 1); st.psi_2e = fb() % (l2 + 1); }
+    if ((st.psi_1b >= l1 && st.psi_2e >= l2) || (st.psi_2b >= l2 && st.psi_1e >= l1)) { st.psi_1b = 0; st.psi_2b = 0; }
+    if (f & 2) st.penalty = (fb() % 16) / 4.0;
+    if (f & 4) st.max_step = (1 + fb() % 32) / 4.0;
+    if (f & 8) st.max_dist = (1 + fb() % 64) / 4.0;
+    if (f & 16) st.use_pruning = true;
+    if (f & 32) st.max_length_diff = fb() % 8;
+    st.inner_dist = (f >> 6) & 1;
+    unsigned long long h = 1469598103934665603ULL;
+    for (size_t i = fzi; i < size; i++) h = (h ^ data[i]) * 1099511628211ULL;
+    rs = h;
+    if (f & 128) {
+        int n = 1 + fb() % 6;
+        st.max_length_diff = 0;
+        st.psi_1b = st.psi_1e = st.psi_2b = st.psi_2e = 0;     // series lengths are drawn inside matrices(): keep psi <= length
+        matrices(n, ndim, 5, &st);
+    } else {
+        if (st.max_length_diff != 0 && (l1 > l2 ? l1 - l2 : l2 - l1) > st.max_length_diff) st.max_length_diff = 0;
+        one(l1, l2, ndim, &st);
+    }
+    return 0;
+}
+#else
 int main(int argc, char **argv) {
     int maxlen = atoi(argv[1]), shard = atoi(argv[2]), nshards = atoi(argv[3]); unsigned seed = atoi(argv[4]);
     rs = seed * 2654435761ULL + 99;
@@ -215,3 +251,4 @@ int main(int argc, char **argv) {
     for (int i = 0; names[i] || i < 33; i++) { if (!names[i]) break; printf("CALLS %s %lu\n", names[i], calls[i]); }
     return 0;
 }
+#endif
